@@ -236,14 +236,27 @@ class DataConnection(Connection, abc.ABC):
 
         try:
             async with atimeout(timeout):
-                self._reader, self._writer = await asyncio.open_connection(
+                reader, writer = await asyncio.open_connection(
                     self.hostname, self.port)
 
         except (Exception, asyncio.TimeoutError) as exc:
             await self.disconnect(CloseReason.CONNECT_FAILED)
             raise ConnectionFailedError(f"{self.hostname}:{self.port} : failed to connect") from exc
 
+        except asyncio.CancelledError:
+            # The connecting task got cancelled, don't leave the connection
+            # behind in the CONNECTING state
+            await self.disconnect(CloseReason.REQUESTED)
+            raise
+
         else:
+            if self.state != ConnectionState.CONNECTING:
+                # Disconnect was called while the connection was being opened
+                writer.close()
+                raise ConnectionFailedError(
+                    f"{self.hostname}:{self.port} : disconnected while connecting")
+
+            self._reader, self._writer = reader, writer
             adapter.debug("connected", extra=self.__dict__)
             await self.set_state(ConnectionState.CONNECTED)
 
